@@ -452,3 +452,154 @@ Proof.
   destruct (info_size_props (p_int p) (p_str p)) as (Hsz & _ & _). unfold L_max in Hle.
   apply body_ok; try assumption. lia.
 Qed.
+
+(* ---------- what the sections of a frame mean ---------- *)
+Lemma enc_pads n : enc_secs (repeat Pad n) = repeat 0 n.
+Proof. induction n as [|n IH]; [reflexivity|]. cbn [repeat]. rewrite enc_secs_cons, IH. reflexivity. Qed.
+
+Lemma secs_ok_pads n : secs_ok (repeat Pad n).
+Proof. apply Forall_forall. intros s H. apply repeat_spec in H. subst. exact I. Qed.
+
+Lemma ointerp_pads secs n : ointerp (secs ++ repeat Pad n) = ointerp secs.
+Proof.
+  unfold ointerp, interp, interp_from. rewrite fold_left_app, !existsb_app.
+  assert (H1 : forall m, fold_left interp_step (repeat Pad n) m = m).
+  { induction n as [|n IH]; intros m; [reflexivity|]. cbn [repeat fold_left interp_step]. apply IH. }
+  assert (H2 : forall f, f Pad = false -> existsb f (repeat Pad n) = false).
+  { intros f Hf. induction n as [|n IH]; [reflexivity|]. cbn [repeat existsb]. rewrite Hf, IH. reflexivity. }
+  rewrite H1, !H2 by reflexivity. rewrite !orb_false_r. reflexivity.
+Qed.
+
+Lemma ointerp_body (tokopt : option bytes) (sl : list (bytes * bytes)) (il : list (N * bytes)) :
+  ointerp ((match tokopt with Some tok => [ACL tok] | None => [] end)
+           ++ (match sl with [] => [] | _ :: _ => [KV sl] end)
+           ++ (match il with [] => [] | _ :: _ => [IntKV il] end)) =
+  (match il with [] => None | _ :: _ => Some (rev il) end,
+   match (match tokopt with Some tok => [(gdpr, tok)] | None => [] end) ++ sl with
+   | [] => None
+   | _ :: _ => Some (rev sl ++ match tokopt with Some tok => [(gdpr, tok)] | None => [] end)
+   end).
+Proof.
+  destruct tokopt as [tok|], sl as [|s0 sl'], il as [|i0 il']; unfold ointerp, interp, interp_from;
+    cbn [app fold_left interp_step existsb is_intsec is_strsec orb fst snd];
+    rewrite ?app_nil_r; reflexivity.
+Qed.
+
+Lemma split_gdpr sm :
+  NoDup (keys sm) ->
+  Permutation sm ((match slookup gdpr sm with Some tok => [(gdpr, tok)] | None => [] end)
+                  ++ filter not_gdpr sm).
+Proof.
+  induction sm as [|[k v] r IH]; intros Hnd; [constructor|].
+  cbn [keys map fst] in Hnd. inversion Hnd as [|? ? Hni Hnd']; subst. specialize (IH Hnd').
+  unfold slookup in *. cbn [lookup filter]. change (not_gdpr (k, v)) with (negb (beqb k gdpr)).
+  destruct (beqb k gdpr) eqn:E; cbn [negb].
+  - apply beqb_eq in E. subst k. rewrite (lookup_none beqb beqb_spec gdpr r Hni) in IH.
+    cbn [app] in *. constructor. exact IH.
+  - apply Permutation_cons_app. exact IH.
+Qed.
+
+Lemma rev_perm {A} (l : list A) : Permutation (rev l) l.
+Proof. apply Permutation_sym, Permutation_rev. Qed.
+
+(* the maps a decoder reads from the sections an encoder must emit *)
+Lemma body_maps im sm secs :
+  NoDup (keys im) -> NoDup (keys sm) -> body_secs im sm secs ->
+  map_back N.eqb (fst (ointerp secs)) im /\ map_back beqb (snd (ointerp secs)) sm.
+Proof.
+  intros Hni Hns (sl & il & Hsl & Hil & ->).
+  assert (E : (match sl with [] => [] | _ => [KV sl] end) = match sl with [] => [] | _ :: _ => [KV sl] end)
+    by (destruct sl; reflexivity).
+  assert (E' : (match il with [] => [] | _ => [IntKV il] end) = match il with [] => [] | _ :: _ => [IntKV il] end)
+    by (destruct il; reflexivity).
+  rewrite E, E', ointerp_body. cbn [fst snd]. clear E E'. split.
+  - destruct il as [|i0 il'].
+    + apply Permutation_nil in Hil. subst im. reflexivity.
+    + apply (map_back_perm N.eqb N.eqb_eq _ (i0 :: il') im).
+      * eapply Permutation_NoDup; [|exact Hni]. apply Permutation_map, Permutation_sym, Hil.
+      * exact Hil.
+      * cbn [map_back]. eexists. split; [reflexivity|].
+        apply lookup_perm; [exact N.eqb_eq| |apply rev_perm].
+        eapply Permutation_NoDup; [|exact Hni].
+        apply Permutation_map. eapply Permutation_trans; [apply Permutation_sym, Hil|].
+        apply Permutation_sym, rev_perm.
+  - pose proof (split_gdpr sm Hns) as Hsp.
+    set (tp := match slookup gdpr sm with Some tok => [(gdpr, tok)] | None => [] end) in *.
+    assert (Hp : Permutation (tp ++ sl) sm).
+    { apply Permutation_sym. eapply Permutation_trans; [exact Hsp|].
+      apply Permutation_app_head, Permutation_sym, Hsl. }
+    assert (Hp2 : Permutation (rev sl ++ tp) (tp ++ sl)).
+    { eapply Permutation_trans; [apply Permutation_app_comm|]. apply Permutation_app_head, rev_perm. }
+    destruct (tp ++ sl) as [|x0 xs] eqn:Ex.
+    + apply Permutation_nil in Hp. subst sm. reflexivity.
+    + apply (map_back_perm beqb beqb_spec _ (x0 :: xs) sm).
+      * eapply Permutation_NoDup; [|exact Hns]. apply Permutation_map, Permutation_sym, Hp.
+      * exact Hp.
+      * cbn [map_back]. eexists. split; [reflexivity|].
+        apply lookup_perm; [exact beqb_spec| |exact Hp2].
+        eapply Permutation_NoDup; [|exact Hns].
+        apply Permutation_map. eapply Permutation_trans; [apply Permutation_sym, Hp|].
+        apply Permutation_sym, Hp2.
+Qed.
+
+(* ---------- every frame that follows the layout decodes to its parameters ---------- *)
+Lemma frame_decodes fl sq pid im sm b payload :
+  frame fl sq pid im sm b -> fl < 65536 -> in_signed 32 sq -> In pid L_pids ->
+  NoDup (keys im) -> NoDup (keys sm) -> len b + len payload - 4 < two32 ->
+  exists r, decode (set_total b (len b + len payload - 4) ++ payload) = (len b, Ok r) /\
+            d_flags r = fl /\ d_seq r = sq /\ d_pid r = pid /\
+            map_back N.eqb (d_int r) im /\ map_back beqb (d_str r) sm /\
+            d_hlen r = Z.of_N (len b) /\ d_plen r = Z.of_N (len payload).
+Proof.
+  intros (tl & secs & pad & Hfr) Hfl Hsq Hpid Hni Hns HT. cbv zeta in Hfr.
+  destruct Hfr as (Hb & Hbody & Hok & Hpad & Hmod & Hmax).
+  set (info := [pid; 0] ++ enc_secs secs ++ repeat 0 pad) in *.
+  set (T := len b + len payload - 4) in *.
+  assert (Hb' : set_total b T ++ payload =
+                be 4 T ++ be 2 L_magic16 ++ be 2 fl ++ be 4 (to_unsigned 32 sq)
+                   ++ be 2 (len info / 4) ++ (info ++ payload)).
+  { unfold set_total. rewrite (N.mod_small T) by exact HT. rewrite Hb.
+    change (drop 4 (be 4 tl ++ ?r)) with r. rewrite <- !app_assoc. reflexivity. }
+  destruct (frame_fields T L_magic16 fl (to_unsigned 32 sq) (len info / 4) (info ++ payload))
+    as (F0 & F4 & F6 & F8 & F12 & Ft & Fd & Fl).
+  cbv zeta in F0, F4, F6, F8, F12, Ft, Fd, Fl. rewrite <- Hb' in *. clear Hb'.
+  set (b' := set_total b T ++ payload) in *.
+  assert (Hlb : len b = 14 + len info).
+  { rewrite Hb, !len_app, !be_len. lia. }
+  unfold L_max in Hmax.
+  assert (Hq : len info / 4 < 65536) by (apply N.div_lt_upper_bound; lia).
+  rewrite unbe_be4 in F0 by exact HT. change (unbe (be 2 L_magic16)) with L_magic16 in F4.
+  rewrite unbe_be2 in F6 by exact Hfl. rewrite unbe_be2 in F12 by exact Hq.
+  rewrite unbe_be4 in F8 by apply to_unsigned_lt.
+  assert (Hdecl : declared b' = len info).
+  { unfold declared, L_meta. rewrite Fl, len_app.
+    destruct (N.ltb_spec (14 + (len info + len payload)) 14); [lia|].
+    rewrite F12. apply div4_exact, Hmod. }
+  assert (Hinfo : info_of b' = pid :: 0 :: (enc_secs secs ++ repeat 0 pad)).
+  { unfold info_of. rewrite Hdecl. change L_meta with 14. rewrite Fd. apply take_app_len. }
+  assert (Hl2 : 2 <= len info).
+  { unfold info. rewrite len_app. change (len [pid; 0]) with 2. lia. }
+  rewrite decode_core.
+  2:{ rewrite Ft. repeat (apply wf_app; split); apply be_wf. }
+  2:{ rewrite Fl. lia. }
+  rewrite F4, N.eqb_refl. cbn [negb]. rewrite Hdecl. unfold L_max.
+  destruct (N.ltb_spec 65536 (len info)) as [Hx|_]; [lia|].
+  destruct (N.ltb_spec (len info) 2) as [Hx|_]; [lia|]. cbn [orb].
+  rewrite Fl, len_app.
+  destruct (N.ltb_spec (14 + (len info + len payload)) (14 + len info)) as [Hx|_]; [lia|].
+  rewrite Hinfo, F0, F6, F8.
+  rewrite (decode_info_fwd _ _ _ (len info) pid 0 _ (secs ++ repeat Pad pad)).
+  - eexists. split; [rewrite Hlb; reflexivity|].
+    unfold result. cbn [d_flags d_seq d_pid d_int d_str d_hlen d_plen].
+    rewrite ointerp_pads. destruct (body_maps im sm secs Hni Hns Hbody) as [Hmi Hms].
+    repeat split; try assumption.
+    + apply signed_unsigned; [lia|exact Hsq].
+    + rewrite Hlb. reflexivity.
+    + unfold T. lia.
+  - reflexivity.
+  - exact Hmax.
+  - exact Hpid.
+  - lia.
+  - apply Forall_app. split; [exact Hok|apply secs_ok_pads].
+  - rewrite enc_secs_app, enc_pads. reflexivity.
+Qed.
